@@ -164,6 +164,18 @@ class OperandLog:
 def merge_tree(objs, kind, rng, do_merge):
     """Merge a list of objects order-preservingly; returns the merged object."""
     objs = list(objs)
+    if kind == "into-fresh":
+        # merge every chunk into a fresh, never updated object (what
+        # combine_simulation_results and user code accumulating results do)
+        acc = objs[0].__class__(objs[0].name, objs[0].type_code,
+                                accumulate_values=objs[0].accumulate_values_bool,
+                                choice_num=CHOICE_NUM) \
+            if objs[0].type_code == Result.CHOICETYPE else \
+            objs[0].__class__(objs[0].name, objs[0].type_code,
+                              accumulate_values=objs[0].accumulate_values_bool)
+        for o in objs:
+            do_merge(acc, o)
+        return acc
     if kind == "left":
         acc = objs[0]
         for o in objs[1:]:
@@ -198,7 +210,7 @@ def case_result(ctx, rng, idx):
         vclass = "exact"
     n = int(rng.integers(1, 41))
     k = int(rng.integers(1, min(n, 8) + 1))
-    tree = ["left", "right", "random"][int(rng.integers(0, 3))]
+    tree = ["left", "right", "random", "into-fresh"][int(rng.integers(0, 4))]
     obs = gen_obs(rng, t, n, vclass)
     tag = {"type": TNAME[t], "accumulate": acc, "vclass": vclass, "n": n, "chunks": k,
            "tree": tree, "obs_head": [(repr(v), repr(tt)) for v, tt in obs[:6]]}
@@ -243,7 +255,7 @@ def case_result(ctx, rng, idx):
                np.array_equal(np.asarray(merged.to_dict()["value"]), cnt) and
                merged.to_dict()["total"] == n, cls="CHOICE:closed-form",
                detail=lambda: {**tag, "got": merged.to_dict()["value"], "want": cnt})
-    if k > 1:
+    if k > 1 or tree == "into-fresh":
         ctx.sig("result", TNAME[t], acc, vclass, k, tree, n > 10)
     ctx.sample("result:" + TNAME[t], tag)
 
@@ -325,6 +337,9 @@ def case_combine(ctx, rng, idx):
     t = [Result.SUMTYPE, Result.RATIOTYPE, Result.CHOICETYPE][idx % 3]
     acc = False
     universe = {"a": np.arange(1, 7), "b": np.array([0.5, 1.0, 2.5, 4.0])}
+    if (idx // 9) % 3 == 1:
+        # closely spaced tiny values (noise variances and the like)
+        universe = {"a": np.arange(1, 7) * 1e-9, "b": np.array([1e-12, 1e-11, 3e-12, 2e-10])}
     unp = ["a", "b"][:nunp]
     overlap = ["none", "partial", "full"][(idx // 3) % 3]
 
